@@ -10,9 +10,7 @@ from pyvc.absx import AbsColl, AbsMap, Seg, LoopSpec, Ghost, add_fact
 
 def mk_validator(E):
     from mappyfile.validator import Validator
-    v = Validator.__new__(Validator)
-    v.schemas = {}
-    v.expanded_schemas = {}
+    v = Validator()          # the real constructor (two empty caches)
     return v
 
 
@@ -609,3 +607,53 @@ class GetErrorMessages(Contract):
 
     def at_call(self, E, v, d, errors, add_comments):
         return [Seg("messages", d, errors, add_comments)]
+
+
+@register
+class HistoryVersionedSchema(Contract):
+    """C09 history clause as a two-call obligation on ONE Validator: whatever was asked before (same version, other
+    schema name / same name, other version), the schema returned for (name, version) has its properties pruned for
+    that version, and the schema returned for no version is never pruned"""
+    target = None
+    lemma = True
+    props = ("C09", "C12")
+    cases = ["same-version-other-name", "other-version-same-name", "version-then-none", "same-call-twice"]
+
+    def build(self, E, case):
+        from mappyfile.validator import Validator
+        v = mk_validator(E)
+        ver = E.real("version")
+        E.assume(S.not_(S.eq(ver, 0)))
+        n1, n2 = E.str("name1"), E.str("name2")
+        E.assume(n1 != n2)
+        fn = Validator.get_versioned_schema
+        if case == "same-version-other-name":
+            calls = [(ver, n1), (ver, n2)]
+        elif case == "other-version-same-name":
+            v2 = E.real("version2")
+            E.assume(S.and_(S.not_(S.eq(v2, 0)), v2 != ver))
+            calls = [(ver, n1), (v2, n1)]
+        elif case == "version-then-none":
+            calls = [(ver, n1), (None, n1)]
+        else:
+            calls = [(ver, n1), (ver, n1)]
+        results = []
+        for (vv, nn) in calls:
+            results.append(E.call_real(fn, v, vv, nn) if E.symbolic else fn(v, vv, nn))
+        E.__dict__["hist"] = (calls, results)
+        return (v,), {}
+
+    def ensures(self, E, case, args, kwargs, out):
+        calls, results = E.__dict__["hist"]
+        if not E.symbolic:
+            return
+        for i, ((vv, nn), r) in enumerate(zip(calls, results)):
+            ok = isinstance(r, SchemaGhost)
+            yield f"call{i + 1}-returns-schema", ok
+            if not ok:
+                continue
+            pruned = isinstance(r.props, Seg) and any(n == ("prune-call", id(r.props)) for n in E.ctx.notes)
+            if vv is None:
+                yield f"call{i + 1}-unversioned-schema-not-pruned", not pruned
+            elif not (case == "same-call-twice" and i == 1):
+                yield f"call{i + 1}-pruned-for-its-version", pruned
